@@ -4,6 +4,7 @@
    any interleaving of the receive, worker, responder and send steps, any behaviour of the implementation. *)
 From Coq Require Import NArith List Bool PeanoNat.
 From V9 Require Shape.ShapeLib Shape.PDisc.
+From V9 Require Race.Facts Shape.PLocks.
 From V9 Require Import Lib.GoSem Gen.Consts Srv.Conc Srv.ConcProofs.
 Import ListNotations.
 
@@ -62,3 +63,10 @@ Proof. eexists. vm_compute. repeat split. Qed.
 Theorem C08_source_calls_the_implementation_without_a_mutex : ShapeLib.disconnect_paths = true.
 Proof. exact PDisc.disconnect_paths_ok. Qed.
 Print Assumptions C08_source_calls_the_implementation_without_a_mutex.
+
+(* ---- a modelling assumption about the CURRENT source (Gen/LockFacts.v), re-checked on every run ---- *)
+(* the steps the models treat as atomic are critical sections in the source: every access to a mutex-protected
+   field (request lists and tag groups, flush chains, request status, the client's pending list and error) holds its mutex *)
+Theorem C08_source_critical_sections : V9.Race.Facts.violations = [].
+Proof. exact V9.Shape.PLocks.sites_comply_ok. Qed.
+Print Assumptions C08_source_critical_sections.
